@@ -695,7 +695,10 @@ class Bada3FuelBurnModel(BaseFuelBurnModel):
         fuel_flow = np.where(in_cruise, fuel_flow_cruise, fuel_flow)
 
         return np.divide(
-            groundspeed, fuel_flow, out=np.zeros_like(groundspeed), where=fuel_flow != 0
+            groundspeed,
+            fuel_flow,
+            out=np.zeros_like(groundspeed, dtype=float),
+            where=fuel_flow != 0,
         )
 
     def iterate_flight_simulation_constant_initial_mass(
